@@ -65,7 +65,9 @@ pub fn c04_strings(rep: &mut Reporter, stats: &mut Stats, tier: Tier, _findings:
     // sequences of whole escape units: the interplay of neighbouring escapes (`\z` followed by an escaped blank, an
     // escaped quote after a decimal escape, ...) lies beyond the character-level lengths above
     {
-        const UNITS: [&str; 18] = ["\\z", "\\ ", "\\\t", "\\n", "\\\n", "\\\\", "\\\"", "\\'", "\\0", "\\65", "\\x41", "\\u{41}", "\\q", "\"", "'", " ", "a", "1"];
+        // (the last five: a raw line break, text that only looks like an escape because the backslash in front of it is
+        // itself escaped, and escapes written with upper-case hex digits)
+        const UNITS: [&str; 23] = ["\\z", "\\ ", "\\\t", "\\n", "\\\n", "\\\\", "\\\"", "\\'", "\\0", "\\65", "\\x41", "\\u{41}", "\\q", "\"", "'", " ", "a", "1", "\n", "\\\\xAB", "\\\\u{FEED}", "\\xAB", "\\u{FEED}"];
         let n = if tier == Tier::Thorough { 4 } else { 3 };
         let mut layer: Vec<String> = vec![String::new()];
         for _ in 0..n {
@@ -479,7 +481,21 @@ const CONTEXTS: [(&str, &str, &str); 16] = [
 ];
 
 fn special_leaves(syn: Syntax) -> Vec<&'static str> {
-    let mut v = vec!["1", "\"s\"", "f()", "...", "(f())", "(...)", "obj:m()", "t.x", "{}", "function() end"];
+    let mut v = vec![
+        "1",
+        "\"s\"",
+        "f()",
+        "...",
+        "(f())",
+        "(...)",
+        "obj:m()",
+        "t.x",
+        "{}",
+        "function() end",
+        // truncating parentheses around a call that is too wide for a line of its own at the narrower width classes
+        "(someFunctionName(argumentNumberOne, argumentNumberTwo, 3, true))",
+        "(object.field:methodName(argumentNumberOne, { 1, 2, 3 }))",
+    ];
     if syn == Syntax::Luau {
         v.extend(["x :: T", "(x :: T)", "(if c then a else b)", "if c then a else b"]);
     }
@@ -505,6 +521,7 @@ pub fn c05_extra(rep: &mut Reporter, stats: &mut Stats, tier: Tier, _findings: &
     let max_ops = if tier == Tier::Thorough { 3 } else { 2 };
     let syntaxes: &[Syntax] = if tier == Tier::Thorough { &[Syntax::Lua51, Syntax::Lua53, Syntax::Luau] } else { &[Syntax::Lua51, Syntax::Lua54, Syntax::Luau] };
     let mut items: Vec<(Syntax, Ex, usize, Option<(usize, &'static str)>)> = Vec::new();
+    let mut always: Vec<(Syntax, Ex, usize, Option<(usize, &'static str)>)> = Vec::new();
     for &syn in syntaxes {
         let sk = skeletons(syn, max_ops, true);
         let specials = special_leaves(syn);
@@ -512,6 +529,11 @@ pub fn c05_extra(rep: &mut Reporter, stats: &mut Stats, tier: Tier, _findings: &
             for len in [1usize, 8, 30] {
                 items.push((syn, e.clone(), len, None));
             }
+        }
+        // the bare special leaves: always evaluated, whatever the stride (a truncating `(f())` / `(...)` matters most when
+        // it is the whole argument / value)
+        for sp in specials.iter() {
+            always.push((syn, Ex::Leaf(0), 8, Some((0, *sp))));
         }
         // one leaf replaced by a special leaf (skeletons with up to two operators)
         for e in skeletons(syn, 2, false).iter() {
@@ -527,7 +549,8 @@ pub fn c05_extra(rep: &mut Reporter, stats: &mut Stats, tier: Tier, _findings: &
     if stride == 1 {
         stats.exhaustive = true;
     }
-    let items: Vec<_> = items.into_iter().enumerate().filter(|(i, _)| i % stride == 0).map(|(_, x)| x).collect();
+    let mut items: Vec<_> = items.into_iter().enumerate().filter(|(i, _)| i % stride == 0).map(|(_, x)| x).collect();
+    items.extend(always);
     stats.notes.push(format!("C05 enumeration: {} (expression, name length, special leaf) items x {} contexts x 6 width classes; stride {}", items.len(), CONTEXTS.len(), stride));
     let results = par_map(&items, |_, (syn, e, len, special)| {
         let mut local = Stats::default();
@@ -637,7 +660,7 @@ const C06_OPERANDS: [&str; 12] = [
 
 // (`if A == B then` / `while A and B do` are not listed: a hanging condition measures the source text of its operands,
 // known finding KF-layout-instability, so compactly written operands fail below the natural width on the unchanged tree)
-const C06_TEMPLATES: [(&str, &str); 10] = [
+const C06_TEMPLATES: [(&str, &str); 13] = [
     ("return", "local function pair()\n\treturn {A}, {B}\nend\n"),
     ("return-top", "return {A}, {B}\n"),
     ("local", "local one, two = {A}, {B}\n"),
@@ -648,6 +671,10 @@ const C06_TEMPLATES: [(&str, &str); 10] = [
     ("numeric-for", "for i = {A}, {B} do\nend\n"),
     ("generic-for", "for k, v in {A}, {B} do\nend\n"),
     ("concat", "local s = {A} .. {B}\n"),
+    // a line comment behind the last field of a multi-line table, written without / with the separator
+    ("field-comment", "local t = {\n\tfirst = 1,\n\tkey = {A} + {B} -- a note about this field\n}\n"),
+    ("field-comment-comma", "local t = {\n\tfirst = 1,\n\tkey = {A} + {B}, -- a note about this field\n}\n"),
+    ("arg-comment", "call(\n\tfirst,\n\t{A} + {B} -- a note about this argument\n)\n"),
 ];
 
 pub fn c06_extra(rep: &mut Reporter, stats: &mut Stats, tier: Tier, _findings: &[Finding]) {
